@@ -429,6 +429,22 @@ def native_replay(prop, r, ob, rep):
 _REPLAY_CACHE = {}
 
 
+def _finam_crash(stderr):
+    """text of an uncaught exception whose innermost frame is finam source (None otherwise)"""
+    import re
+    frames = re.findall(r'File "([^"]+)", line (\d+), in (\S+)', stderr or "")
+    if not frames or "Traceback (most recent call last)" not in stderr:
+        return None
+    fn, line, func = frames[-1]
+    if "/src/finam/" not in fn:
+        return None
+    lines = [l for l in stderr.strip().splitlines() if l and not l.startswith(" ")]
+    exc = lines[-1] if lines else "exception"
+    drv = [f for f in frames if "/replay/drivers/" in f[0]]
+    where = f" (driver line {drv[-1][1]} in {drv[-1][2]})" if drv else ""
+    return f"unexpected {exc[:200]} raised in finam/{fn.split('/src/finam/')[1]}:{func}{where}"
+
+
 def run_bounded(b, tier, seed):
     cmd = [VENV_PY, os.path.join(ROOT, b["script"]), "--tier", tier, "--seed", str(seed)] + b.get("args", [])
     try:
@@ -440,6 +456,12 @@ def run_bounded(b, tier, seed):
     try:
         res = json.loads(last)
     except Exception:
+        crash = _finam_crash(out.stderr)
+        if crash is not None:
+            # the stand-in only feeds inputs the property quantifies over and catches the refusals it expects: an exception that
+            # escapes from finam's own code is a failing input, not a problem of the checker
+            return {"name": b["name"], "label": "bounded (never counted as proved)", "evaluations": 0, "distinct_nontrivial": 0,
+                    "violations": [{"case": crash}], "rule": "the stand-in's run on the real code ended with an exception raised inside finam"}
         return {"name": b["name"], "error": f"exit {out.returncode}: {(out.stdout + out.stderr)[-1500:]}"}
     res["name"] = b["name"]
     res["label"] = "bounded (never counted as proved)"
